@@ -323,6 +323,82 @@ def extra_scenarios(ctx, uberjob):
                 ctx.fail("dependency-only:kept", "the result of a call stays alive for a call that merely depends on it (add_dependency), "
                          "although every call that consumes it has finished", {"workers": workers, "scheduler": scheduler})
 
+    # ---- (F) reference counting alone (cyclic GC off) releases results however they were passed: positionally, by keyword,
+    # inside a gathered structure
+    for how in ("positional", "keyword", "in-list", "in-dict-kw"):
+        for workers in (1, 3):
+            box = {}
+
+            def make6():
+                b = Big()
+                box["wr"] = weakref.ref(b)
+                return b
+
+            def consume6(*a, **k):
+                return 1
+
+            def probe6(small):
+                box["alive_at_probe"] = box["wr"]() is not None
+                return small
+            p = uberjob.Plan()
+            a = p.call(make6)
+            c = {"positional": lambda: p.call(consume6, a), "keyword": lambda: p.call(consume6, value=a),
+                 "in-list": lambda: p.call(consume6, [a, 1]), "in-dict-kw": lambda: p.call(consume6, d={"k": a})}[how]()
+            pr = p.call(probe6, c)
+            was = gc.isenabled()
+            gc.disable()
+            try:
+                uberjob.run(p, output=pr, max_workers=workers, progress=None)
+            finally:
+                if was:
+                    gc.enable()
+                gc.collect()
+            ctx.case(("c16-refcount", how, workers))
+            if box.get("alive_at_probe"):
+                ctx.fail("refcount:" + how, "a result passed %s is still alive (cyclic GC off) after its only consumer finished: a reference cycle in the "
+                         "library keeps it" % how, {"passed": how, "workers": workers})
+
+    # ---- (G) error-tolerant run: a failed call (also one whose callable leaves no Python frame) does not keep its inputs
+    import operator
+    for fn_kind in ("python-function", "operator.getitem"):
+        box = {}
+
+        def make7():
+            b = {"big": Big()}
+            box["wr"] = weakref.ref(b["big"])
+            return b
+
+        def pyfail(d):
+            raise KeyError("nope")
+
+        def probe7():
+            # polled a little later: the failing call has been handled by then
+            import time
+            deadline = time.time() + 2
+            while time.time() < deadline:
+                gc.collect()
+                if box["wr"]() is None:
+                    break
+                time.sleep(0.02)
+            box["alive_late"] = box["wr"]() is not None
+            return 1
+        p = uberjob.Plan()
+        t = p.call(make7)
+        bad = p.call(operator.getitem, t, "nope") if fn_kind == "operator.getitem" else p.call(pyfail, t)
+        pr = p.call(probe7)
+        p.add_dependency(t, pr)
+        try:
+            uberjob.run(p, output=[bad, pr], max_workers=3, max_errors=None, progress=None)
+        except uberjob.CallError:
+            pass
+        ctx.case(("c16-failed-call-inputs", fn_kind))
+        ctx.count("failed_call_inputs_kept", "%s:%s" % (fn_kind, box.get("alive_late")))
+        if fn_kind == "operator.getitem" and box.get("alive_late"):
+            # (for a failing Python function the exception's own traceback references the function's frame and its arguments:
+            #  inherent to Python and the same on every version of the code - recorded, not judged)
+            ctx.fail("failed-call:inputs-kept", "error-tolerant run: the input of a failed operator.getitem call stays alive while the run goes on",
+                     {"callable": fn_kind})
+
     # ---- (B) retry: reference counting alone releases the inputs of a call whose first attempt raised
     for workers in (1, 4):
         for scheduler in (None, "random"):
